@@ -7,7 +7,7 @@
    width / length-form choice explicit, ser, decoder spec_dec), C10.CborConv (go_of: the Go
    value carrying given data; lib_supports: documented limits; tdepth; tree_of). *)
 From Coq Require Import List NArith ZArith Lia Bool.
-From Verif Require Import Base.Outcome Wire.Item Gen.Consts Wire.CborFloat Wire.Cbor C10.CborSpec C10.CborConv Wire.CborProofs.
+From Verif Require Import Base.Outcome Wire.Item Gen.Consts Wire.CborFloat Wire.Cbor C10.CborSpec C10.CborConv Wire.CborProofs Wire.CborDepth.
 Import ListNotations.
 Open Scope N_scope.
 
@@ -76,6 +76,20 @@ Theorem Wcbor_skip_enc_partial : forall (O : eopts) (D : dopts) (i : item) (d : 
   skip D (fuel_for (enc O i ++ rest)) d (enc O i ++ rest) = Ok rest.
 Proof. exact skip_enc_lemma. Qed.
 Print Assumptions Wcbor_skip_enc_partial.
+
+(* dec_depth, second half (full): for EVERY byte string, every option vector and every fuel, the
+   recursion level the decode-into-interface{} model reaches (instrumented exactly where the code
+   recurses: array/map elements, kept tags) never exceeds MaxDepth - 1; likewise for the skip walker.
+   (With the pre-repair code this is false: F14-1/2/3.) *)
+Theorem Wcbor_dec_maxrec : forall (D : dopts) (f : nat) (b : list N),
+  (dec_maxrec D f b <= Z.to_nat (maxdepth D - 1))%nat.
+Proof. exact dec_maxrec_lemma. Qed.
+Print Assumptions Wcbor_dec_maxrec.
+
+Theorem Wcbor_skip_maxrec : forall (D : dopts) (f : nat) (d : Z) (b : list N),
+  (0 <= d)%Z -> (skip_maxrec D f d b <= Z.to_nat (maxdepth D - 1))%nat.
+Proof. exact skip_maxrec_lemma. Qed.
+Print Assumptions Wcbor_skip_maxrec.
 
 (* all 65536 half-precision floats: the code's halfFloatToFloatBits (hand-modelled, tied by the
    leaf stream on all 65536 inputs) equals the RFC 8949 Appendix D value; exhaustive (two nested
